@@ -62,6 +62,29 @@ func genC16(t *rapid.T) WKCase {
 			w.Ops[i].M.Data = wl.Fill(rapid.IntRange(1100<<10, 2500<<10).Draw(t, "big-message-size"), rapid.Uint64().Draw(t, "big-message-seed"))
 		}
 	}
+	// one case in 10 is a recording without message index records whose chunks hold runs of equal log times that
+	// straddle chunk boundaries: chunks are then adjacent in the file, and the time-ordered readers have to break
+	// ties between a chunk that is still to be opened and the messages of its neighbour
+	if rapid.IntRange(0, 9).Draw(t, "adjacent-chunks-with-ties?") == 0 {
+		k.Chunked, k.SkipMessageIndexing, k.SkipChunkIndex, k.SkipRepeatedSchemas, k.SkipRepeatedChannelInfos = true, true, false, false, false
+		k.ChunkSize = int64(rapid.SampledFrom([]int{80, 100, 160, 300}).Draw(t, "tie-chunk-size"))
+		w = wl.Workload{Profile: w.Profile, Library: w.Library}
+		w.Ops = append(w.Ops, wl.Op{C: &wl.Channel{ID: 0, Topic: "/a"}})
+		n := rapid.IntRange(6, 24).Draw(t, "tie-messages")
+		tm := uint64(rapid.IntRange(0, 3).Draw(t, "tie-base"))
+		for i := 0; i < n; i++ {
+			// mostly the same time, now and then one step on (or back)
+			switch rapid.IntRange(0, 5).Draw(t, "tie-step") {
+			case 0:
+				tm++
+			case 1:
+				if tm > 0 {
+					tm--
+				}
+			}
+			w.Ops = append(w.Ops, wl.Op{M: &wl.Message{ChannelID: 0, Sequence: uint32(i), LogTime: tm, PublishTime: tm, Data: wl.Fill(rapid.SampledFrom([]int{0, 0, 10, 60}).Draw(t, "tie-size"), uint64(i)+1)}})
+		}
+	}
 	return WKCase{W: w, K: k}
 }
 
